@@ -94,6 +94,16 @@ m("dict-rewrite-whole", "_adapter/dict_adapter.py", "            if not (\n     
 m("suffix-strip-off", "_align.py", "        if a == b:\n            end += 1\n        else:\n            break", "        break", [], "no suffix stripping: equivalent (informational)")
 
 
+# ---- C10
+m("unmanaged-early-return-off", "_adapter/value_adapter.py", "        if isinstance(old_value, Unmanaged):\n            return old_value", "        if isinstance(old_value, Unmanaged) and old_value == new_value:\n            return old_value", ["C10"], "an inconsistent Is()/dirty value is overwritten by fix")
+m("fstring-branch-off", "_adapter/value_adapter.py", "        if isinstance(old_node, ast.JoinedStr) and isinstance(new_value, str):", "        if isinstance(old_node, ast.JoinedStr) and isinstance(new_value, str) and old_value == new_value:", ["C10"], "a failing f-string is replaced by a literal")
+m("star-first-only", "_adapter/sequence_adapter.py", "            for e in old_node.elts:\n                if isinstance(e, ast.Starred):", "            for e in old_node.elts[:1]:\n                if isinstance(e, ast.Starred):", ["C10", "C18"], "only a leading star-expression freezes the list")
+m("map-unmanaged-no-callargs", "_adapter/generic_call_adapter.py", "            *[adapter_map(arg.value, map_function) for arg in new_args],\n            **{\n                k: adapter_map(kwarg.value, map_function)", "            *[adapter_map(arg.value, map_function) for arg in new_args],\n            **{\n                k: kwarg.value", ["C10", "C18"], "unmanaged values inside constructor keyword arguments are not wrapped")
+m("dict-star-after-len", "_adapter/dict_adapter.py", "                    if key is None:", "                    if key is None and len(old_value) == len(old_node.keys):", ["C10"], "revert of the dict ** fix")
+m("inner-default-compare", "_adapter/generic_call_adapter.py", "    if isinstance(value, Unmanaged) or is_unmanaged(value):", "    if False:", ["C10", "C07"], "revert of the default-comparison fix")
+m("inner-aligned-compare-off", "_snapshot/eq_value.py", "        with compare_context():\n            # inner", "        if True:\n            # inner", ["C10"], "revert: inner snapshots compared positionally")
+
+
 def make_copy(mut):
     base = os.environ.get("VERIF_TMP") or ("/dev/shm" if os.path.isdir("/dev/shm") else tempfile.gettempdir())
     d = Path(tempfile.mkdtemp(prefix="mutant-", dir=base))
